@@ -29,9 +29,9 @@ RULE = ("scenario = a root frame by any construction route (incl. float32 data l
 COMPONENTS = {"real": ["setigen.slice.get_slice", "setigen.dedrift.dedrift", "setigen.integrate (integrate, spectrum, timeseries)",
                        "setigen.frame.Frame.from_data", "blimpy Waterfall (loaded parents)"],
               "stub": ["SimClock with jumps", "RefSigproc writer", "entropy seam"]}
-ASSUMPTIONS = ["slice bounds 0 <= l < r <= fchans", "a de-drift row whose offset lies within 1e-9 of a rounding boundary is not judged, unless the offset is exactly k + 1/2 in every evaluation order (then round() means half to even)",
+ASSUMPTIONS = ["slice bounds 0 <= l < r <= fchans, also spelled from the end of the band (negative)", "a de-drift row whose offset lies within 1e-9 of a rounding boundary is not judged, unless the offset is exactly k + 1/2 in every evaluation order (then round() means half to even)",
                "axes compared within 8 ulp of the largest frequency / time"]
-PROBES = ["dedrift_exact_half_channel_tie", "parent_loaded_float32", "parent_has_waterfall", "derived_of_derived", "dedrift_negative", "dedrift_from_metadata",
+PROBES = ["slice_bounds_counted_from_the_end", "dedrift_exact_half_channel_tie", "parent_loaded_float32", "parent_has_waterfall", "derived_of_derived", "dedrift_negative", "dedrift_from_metadata",
           "dedrift_rejected_too_steep", "clock_jump", "spectrum_frame", "timeseries_frame", "dedrift_peak_checked", "normalised"]
 
 
@@ -75,6 +75,8 @@ def generate(rng, tier):
         if r < 0.3:
             a, b = sorted([rng.random(), rng.random()])
             ops.append({"op": "slice", "parent": parent, "a": a, "b": b})
+            if rng.random() < 0.2:
+                ops[-1]["neg"] = rng.choice(["l", "both"])
         elif r < 0.65:
             mode = rng.choice(["rate", "rate", "rate", "own", "metadata", "too_steep"])
             ops.append({"op": "dedrift", "parent": parent, "mode": mode, "px": rng.choice([0.0, 0.4, 1.0, -1.0, 2.3, -0.6, 0.05, 0.5, -0.5, 1.5, -2.5, 0.25]),
@@ -208,7 +210,13 @@ def execute(sc, ctx):
             if kind == "slice":
                 l = min(int(op["a"] * n), n - 1)
                 r = max(min(int(math.ceil(op["b"] * n)), n), l + 1)
-                child = stg.get_slice(parent, l, r) if (l + r) % 2 else parent.get_slice(l, r)
+                la, ra = l, r
+                if op.get("neg"):
+                    # the same bounds counted from the end of the band, as any Python slice allows
+                    la = l - n
+                    ra = (r - n) if (op["neg"] == "both" and r < n) else r
+                    ctx.hit("slice_bounds_counted_from_the_end")
+                child = stg.get_slice(parent, la, ra) if (l + r) % 2 else parent.get_slice(la, ra)
                 ctx.event("slice", child.data, child.fs)
                 ok = ctx.check(child.data.shape == (parent.tchans, r - l) and np.array_equal(child.data, pdata[:, l:r], equal_nan=True), "slice",
                                "C17/slice/data_not_columns_l_to_r", lambda: "l=%d r=%d of %d: shape %s" % (l, r, n, child.data.shape))
